@@ -199,7 +199,9 @@ theorem loopNode_mono (loop : St → Res) (hl : Mono loop) : Mono (loopNode loop
   | some e => exact h.trans (CMono.of_eq rfl rfl rfl)
   | none =>
     simp only
-    cases (loop { s with c := { s.c with brkD := 0 } }).st.c.err <;> exact h.trans (CMono.of_eq rfl rfl rfl)
+    cases (loop { s with c := { s.c with brkD := 0 } }).st.c.err with
+    | none => exact h.trans (CMono.of_eq rfl rfl rfl)
+    | some e => simp only; unfold loopErrRes; split <;> exact h.trans (CMono.of_eq rfl rfl rfl)
 
 theorem interp_mono (reg : Registry) : ∀ f : Nat,
     (∀ nodes, Mono (writeTree reg f nodes)) ∧
